@@ -110,7 +110,7 @@ CLAIMED = {
         "text": "Coq theorems (Properties_C07.v: C07_cast_guard, C07_cast_guard_boxed_cast, C07_grant, C07_const_propagates, C07_immutable) over the regenerated cast rules and guards "
                 "(t_CastRules.py, t_ConstRules.py: Equation/Prefix guards, Boxed_Number in-place pointer, Data::operator=, Handle_Return, stdlib wrapper forms): for every program of "
                 "aliasing routes and mutation attempts a const object keeps its value and every attempt ends in an error (or runs on a converted temporary). Tie: 31k/99k cases (type x "
-                "const source kind x route chain <=2 x mutator, plus control sources) diffed against the extracted model; oracle = extracted const_verdict on C++-side before/after values.",
+                "const source kind x route chain <=2 x mutator, plus control sources) diffed against the extracted model; oracle = extracted const_verdict on C++-side before/after values. Since session 3 also: the host entry points (the four const_var overloads and var), the registration functions (add/add_global/add_global_const/set_global), the way add_function boxes a function object and every function registered under an assignment-like name in bootstrap.hpp are regenerated as tables and proved: C07_const_entry_points, C07_entry_points_meet_spec, C07_function_objects_const, C07_const_registration, C07_shared_const_immutable (after sharing l through a const_* entry point no program changes l, by induction, no bounds), C07_assign_functions_reject_const. Correspondence: 61k cases (ways of sharing x registrations x mutators in operator and function spelling, const function values x every assignment spelling x ten routes) with the C++ object read back from C++.",
         "design_ref": "DESIGN.md §6 C07",
         "note": "Assumes const-correct C++ callees (no const_cast). Two known findings (const container elements are mutable; an attempt on a converted temporary raises no error) are "
                 "keyed in known_findings.json. No axioms.",
